@@ -152,6 +152,13 @@ func runC01(r *Report, tier string) {
 	checkDecoderLimits(r, "R07.3")
 	// sign and verify gates tolerate a missing alg under the same condition
 	checkGatesOnly(r)
+	// what the signing side emits, the verifying side accepts: ES* signatures
+	// sized by the key's own curve on both key kinds; protected values the
+	// encoder admits (tags) are not refused by the decoder's label pre-pass
+	r.rule("R16.2", "(shared with C16) every built-in ES* SignDigest returns the encode helper's result for the key's own curve over the key's (r, s).")
+	checkECDSASignDigestPaths(r, "R16.2")
+	r.rule("R07.5", "(shared with C07) the bucket decoders test exact major types and decode the protected content only with a tag-admitting mode.")
+	c05Buckets(r, "R07.5")
 	checkEncoderSlots(r, "R01.3")
 	checkDecoderSlots(r, "R01.3")
 	// payload nil <-> f6: the bstr/nil decoder (R05.6) and the wire type are the carriers
